@@ -21,6 +21,7 @@ COMPLETION_EVENTS = {
     "record_stage_completed", "record_stage_failed", "record_stage_skipped", "record_stage_canceled",
     "record_task_completed", "record_task_failed",
 }
+WORKFLOW_OUTCOME_EVENTS = {"record_workflow_completed", "record_workflow_canceled", "record_workflow_failed"}
 
 
 def _calls(node, name=None):
@@ -52,7 +53,7 @@ def run(ctx, rep) -> None:
     rep.rule("C13.R3", "abort_store_transaction never publishes; commit_store_transaction publishes pending only after depth reached 0")
     rep.rule("C13.R4", "append_batch commits only when it opened the connection; INSERT INTO events does not supply sequence; events.sequence is INTEGER PRIMARY KEY AUTOINCREMENT")
     rep.rule("C13.R5", "every CompleteTask/CompleteStage transaction that stores the own task/stage in a completed status contains the completion event (event atom inside the same transaction)")
-    rep.rule("C13.R6", "no record_{stage,task}_{completed,failed,skipped,canceled} call outside a transaction before the commit that makes that state durable")
+    rep.rule("C13.R6", "no record_{stage,task}_{completed,failed,skipped,canceled} / record_workflow_{completed,canceled,failed} call outside a transaction before the commit that makes that state durable")
     rep.undecided += ["crash atomicity itself (SQLite)", "event stores living in a different database (documented eventual consistency)"]
     # ---- R1 -------------------------------------------------------------------------------------
     rb = prog.cls("stabilize.events.recorder.base", "EventRecorderBase")
@@ -194,6 +195,22 @@ def run(ctx, rep) -> None:
     n6 = 0
     for pi in infos:
         for i, e in enumerate(pi.trace):
+            if e.kind == "event" and e.get("name") in WORKFLOW_OUTCOME_EVENTS:
+                # the workflow's outcome event: same rule, the durable change is update_workflow_status / store.update_status
+                n6 += 1
+                if e.get("in_txn"):
+                    continue
+                later_w = [x for x in pi.trace[i + 1:] if x.kind == "update_workflow_status" or (x.kind == "auto" and str(x.get("api")) in ("store.update_status", "store.update_workflow_status"))]
+                key = (pi.handler, e.get("name"), bool(later_w), e.site)
+                if key in seen:
+                    continue
+                seen.add(key)
+                if later_w:
+                    rep.fail("C13.R6", f"{pi.handler}: {e.get('name')}", "the workflow's outcome event is recorded outside and BEFORE the transaction that stores the outcome: when that commit fails (or the process dies) the event is durable and "
+                             "published for a workflow that is still RUNNING, and the redelivered message records it a second time", e.site[0], e.site[1], disc=f"{e.get('name')}")
+                else:
+                    rep.ok("C13.R6", f"{pi.handler}: {e.get('name')}", "recorded after the outcome is durable", e.site[0], e.site[1])
+                continue
             if e.kind != "event" or e.get("name") not in COMPLETION_EVENTS:
                 continue
             n6 += 1
